@@ -12,6 +12,7 @@ import (
 	"fmt"
 	"sort"
 	"strings"
+	"sync/atomic"
 	"time"
 
 	"storj.io/drpc"
@@ -156,6 +157,10 @@ type spHarness struct {
 	peers         []string
 	removed       map[uint32]bool
 	defaultQueues bool
+	hung          map[string]bool // peers whose stream opening never completes
+	sendsAccepted atomic.Int64    // Send calls that returned nil
+	getterCalls   atomic.Int64    // dial jobs that started (the peer getter is a job's first step)
+	sendN         int
 }
 
 func (h *spHarness) Init(a *app.App) error        { return nil }
@@ -195,6 +200,10 @@ func (h *spHarness) newStream(peerId string) *spStream {
 func (h *spHarness) OpenStream(ctx context.Context, p peer.Peer) (drpc.Stream, []string, int, error) {
 	h.openN++
 	h.s.Adopt(fmt.Sprintf("open-%s-%d", p.Id(), h.openN))
+	if h.hung[p.Id()] {
+		h.s.Park("blocked:open:" + p.Id()) // never granted before teardown: the dial hangs
+		return nil, nil, 0, errors.New("dial failed")
+	}
 	h.s.Park("open:" + p.Id())
 	if h.r.Src.Flip("open-fails", 0.25) {
 		h.r.Fault("open-error")
@@ -320,6 +329,11 @@ func runC19(r *core.Run) {
 		h.peers = append(h.peers, fmt.Sprintf("P%d", i))
 	}
 	h.defaultQueues = s.Flip("default-queues", 0.3)
+	h.hung = map[string]bool{}
+	if s.Flip("hung-opening", 0.25) {
+		h.hung[h.peers[s.Choose("hung-peer", len(h.peers))]] = true
+		r.Fault("hung-dial")
+	}
 	sendQ := 10
 	if h.defaultQueues && s.Flip("zero-config-queue", 0.5) {
 		sendQ = 0
@@ -363,7 +377,7 @@ func runC19(r *core.Run) {
 			if h.defaultQueues {
 				wBurst = 2
 			}
-			o := op{kind: s.Weighted("op", []int{4, 4, 5, 3, 1, wBurst})}
+			o := op{kind: s.Weighted("op", []int{4, 4, 5, 3, 1, wBurst, 2})}
 			for _, p := range h.peers {
 				if s.Flip("op-peer", 0.4) {
 					o.peers = append(o.peers, p)
@@ -396,7 +410,17 @@ func runC19(r *core.Run) {
 					peers := o.peers
 					jobName := fmt.Sprintf("job-m%d", m.id)
 					inCall[name] = "Send"
-					err = h.pool.Send(context.Background(), m, func(ctx context.Context) ([]peer.Peer, error) {
+					sctx := context.Background()
+					if len(h.hung) > 0 {
+						// senders bring their own deadline (fake clock); deadlines differ by a millisecond so that
+						// timers of one instant do not wake several goroutines at once
+						h.sendN++
+						var cancel context.CancelFunc
+						sctx, cancel = context.WithTimeout(sctx, 5*time.Second+time.Duration(h.sendN)*time.Millisecond)
+						_ = cancel
+					}
+					err = h.pool.Send(sctx, m, func(ctx context.Context) ([]peer.Peer, error) {
+						h.getterCalls.Add(1)
 						sch.Adopt(jobName)
 						sch.Park("getpeers")
 						if r.Src.Flip("getpeers-fails", 0.15) {
@@ -409,6 +433,9 @@ func runC19(r *core.Run) {
 						}
 						return ps, nil
 					})
+					if err == nil {
+						h.sendsAccepted.Add(1)
+					}
 					r.Event("call-send", "%s m%d -> %v: %v", call, m.id, peers, err)
 				case 1:
 					inCall[name] = "SendById"
@@ -423,6 +450,11 @@ func runC19(r *core.Run) {
 					inCall[name] = "AddStream"
 					err = h.pool.AddStream(st, st.queue, st.tags...)
 					r.Event("call-addstream", "%s %s peer=%s queue=%d tags=%v blocked=%v failAt=%d: %v", call, st.name(), st.peerId, st.queue, st.tags, st.blocked, st.failAt, err)
+				case 6: // an incoming stream served by the pool (the rpc handler blocks in ReadStream for its lifetime)
+					st := h.newStream(o.peers[0])
+					rsName := fmt.Sprintf("serve-%s", st.name())
+					r.Event("call-readstream", "%s %s peer=%s queue=%d tags=%v blocked=%v failAt=%d", call, st.name(), st.peerId, st.queue, st.tags, st.blocked, st.failAt)
+					sch.Go(rsName, func() { _ = h.pool.ReadStream(st, st.queue, st.tags...) })
 				case 5: // a burst at every tagged stream (a stuck peer's buffer must stay bounded)
 					inCall[name] = "Broadcast"
 					for b := 0; b < burstSize; b++ {
@@ -510,6 +542,29 @@ func runC19(r *core.Run) {
 	if r.Aborted() {
 		sch.ReleaseAll()
 		return
+	}
+	if len(h.hung) > 0 {
+		// every sender's deadline passes while the dial to one peer still hangs: workers waiting for that opening
+		// must come back and serve the jobs queued behind them
+		sch.Off = false
+		time.Sleep(7 * time.Second)
+		for n := 0; n < 200000 && !r.Aborted(); n++ {
+			var act []string
+			for _, nm := range runnable() {
+				if pt, _ := sch.ParkedPoint(nm); strings.HasPrefix(pt, "recv:") {
+					continue
+				}
+				act = append(act, nm)
+			}
+			if len(act) == 0 {
+				break
+			}
+			step(act)
+		}
+		if a, g := h.sendsAccepted.Load(), h.getterCalls.Load(); a != g && !r.Aborted() {
+			r.Fail("dial-workers-stuck", "", "%d sends were accepted but only %d dial jobs have started although every sender's deadline has passed: workers are still waiting for the hung opening to %v, sends to other peers queue up behind them", a, g, core.SortedKeys(h.hung))
+		}
+		r.Probe("hung-dial-deadlines-passed")
 	}
 	// faults stop: every healthy stream drains what it accepted (a blocked peer delays nobody)
 	for n := 0; n < 200000 && !r.Aborted(); n++ {
